@@ -110,3 +110,10 @@ func init() {
 	register("C05", ruleCode128Encoder)
 	register("C14", ruleCode128Encoder)
 }
+
+func init() {
+	register("C04", rulePDF417Encoder)
+	register("C12", rulePDF417Encoder)
+	register("C13", rulePDF417Encoder)
+	register("C11", rulePDF417Encoder)
+}
